@@ -588,6 +588,16 @@ def main():
         for grid in ([(2, 2)] if quick else [(2, 2), (1, 2), (3, 1)]):
             items.append(('sums', shape, grid, lay, None))
     items.append(('minmax', (3, 2, 3, 2), (2, 2), 'cust_1203', None))
+    if not quick:
+        # extents not divisible by the process counts, different in every direction
+        for shp in ((5, 4, 4, 3), (4, 3, 5, 4)):
+            for grid in ((2, 2), (3, 2), (2, 3)):
+                for lay in list(LAY4) + ['cust_1203', 'cust_2103']:
+                    items.append(('sums', shp, grid, lay, None))
+                items.append(('collector', shp, grid, 'v_parallel', None))
+        for grid in ((2, 2), (3, 2)):
+            for lay in list(LAY4) + ['cust_1203']:
+                items.append(('minmax', (4, 2, 3, 3), grid, lay, None))          # (larger fields: the min/max queries run out of time)
     for cn in CANARIES:
         items.append((cn[3], shape if cn[3] == 'sums' else (3, 2, 3, 2), (2, 2), 'v_parallel', cn[:3]))
     # unit field -> analytic volume factor (exact rational identity evaluated through the real classes on rank (1,1))
@@ -609,7 +619,7 @@ def main():
     numenv.enable(extra_modules=[(norms, None), (energy, None), (dc, None)])
     run.stubs = sorted(set(numenv.STUBS)) + ['pygyro.model.grid np.amin/amax -> If-based non-forking fold', 'mpi4py.MPI: lib/simmpi (reduce/Reduce contract)']
     numenv.disable()
-    run.bounds = dict(extents=list(shape), grids=[list(g) for g in grids], layouts='3 4-D layouts + 4 3-D layouts of the driver swapper')
+    run.bounds = dict(extents=list(shape), thorough_extents='(5,4,4,3), (4,3,5,4) for sums and collector on (2,2),(3,2),(2,3); min/max up to (4,2,3,3)', grids=[list(g) for g in grids], layouts='3 4-D layouts + 4 3-D layouts of the driver swapper')
     run.outside = ['time slot in binary64: proved only for t accumulated by t += dt over <= 7 (thorough 12) steps and dt in [2^-7, 4]', 'rounding / reduction order',
                    'min/max inside collect() use ndarray.min() (element comparisons): exercised with a concrete exact field, not a symbolic one',
                    'complex phi (object arrays; conj is the identity on reals)']
